@@ -1,6 +1,6 @@
 (* C17 -- specifications of the remaining level-1 operations: operator-=, Replace(String,String), the producers. *)
 From Coq Require Import List NArith ZArith Bool Lia.
-From Muscle Require Import Cont.StrL0 Cont.StrModel Cont.StrLemmas Cont.StrGrow Cont.StrCore Cont.StrOps Cont.StrL0Facts Cont.StrReplace.
+From Muscle Require Import Cont.StrL0 Cont.StrModel Cont.StrSpec Cont.StrLemmas Cont.StrGrow Cont.StrCore Cont.StrOps Cont.StrL0Facts Cont.StrReplace.
 Import ListNotations.
 Local Open Scope N_scope.
 
